@@ -104,6 +104,7 @@ type vRmgr struct {
 }
 
 func (m *vRmgr) Realloc(_ context.Context, node string, origin, opts resourcetypes.Resources) (resourcetypes.Resources, resourcetypes.Resources, resourcetypes.Resources, error) {
+	defer vGuard()()
 	if m.w.fault("rmgr.Realloc") {
 		return nil, nil, nil, vErrInjected
 	}
@@ -113,6 +114,7 @@ func (m *vRmgr) Realloc(_ context.Context, node string, origin, opts resourcetyp
 }
 
 func (m *vRmgr) RollbackRealloc(_ context.Context, node string, delta resourcetypes.Resources) error {
+	defer vGuard()()
 	if m.w.fault("rmgr.RollbackRealloc") {
 		return vErrInjected
 	}
@@ -121,6 +123,7 @@ func (m *vRmgr) RollbackRealloc(_ context.Context, node string, delta resourcety
 }
 
 func (m *vRmgr) SetNodeResourceUsage(_ context.Context, node string, _ resourcetypes.Resources, _ resourcetypes.Resources, ws []resourcetypes.Resources, delta bool, incr bool) (resourcetypes.Resources, resourcetypes.Resources, error) {
+	defer vGuard()()
 	if m.w.fault("rmgr.SetNodeResourceUsage") {
 		return nil, nil, vErrInjected
 	}
@@ -141,6 +144,7 @@ func (m *vRmgr) SetNodeResourceUsage(_ context.Context, node string, _ resourcet
 }
 
 func (m *vRmgr) Alloc(_ context.Context, node string, count int, opts resourcetypes.Resources) ([]resourcetypes.Resources, []resourcetypes.Resources, error) {
+	defer vGuard()()
 	if m.w.fault("rmgr.Alloc") {
 		return nil, nil, vErrInjected
 	}
@@ -159,10 +163,12 @@ func (m *vRmgr) Alloc(_ context.Context, node string, count int, opts resourcety
 
 // Remap only serves the fire-and-forget remap (skipped under gosym).
 func (m *vRmgr) Remap(context.Context, string, []*types.Workload) (map[string]resourcetypes.Resources, error) {
+	defer vGuard()()
 	return nil, nil
 }
 
 func (m *vRmgr) RollbackAlloc(_ context.Context, node string, ws []resourcetypes.Resources) error {
+	defer vGuard()()
 	if m.w.fault("rmgr.RollbackAlloc") {
 		return vErrInjected
 	}
@@ -180,6 +186,7 @@ type vEngine struct {
 }
 
 func (e *vEngine) VirtualizationUpdateResource(_ context.Context, id string, params resourcetypes.Resources) error {
+	defer vGuard()()
 	if e.w.fault("engine.VirtualizationUpdateResource") {
 		return vErrInjected
 	}
@@ -188,6 +195,7 @@ func (e *vEngine) VirtualizationUpdateResource(_ context.Context, id string, par
 }
 
 func (e *vEngine) VirtualizationRemove(_ context.Context, id string, _, _ bool) error {
+	defer vGuard()()
 	if e.w.fault("engine.VirtualizationRemove") {
 		return vErrInjected
 	}
@@ -199,6 +207,7 @@ func (e *vEngine) VirtualizationRemove(_ context.Context, id string, _, _ bool) 
 // ---- store: workload records (with faults) ----
 
 func (s *vStore) GetWorkload(_ context.Context, id string) (*types.Workload, error) {
+	defer vGuard()()
 	if s.w != nil && s.w.fault("store.GetWorkload") {
 		return nil, vErrInjected
 	}
@@ -211,6 +220,7 @@ func (s *vStore) GetWorkload(_ context.Context, id string) (*types.Workload, err
 }
 
 func (s *vStore) UpdateWorkload(_ context.Context, wl *types.Workload) error {
+	defer vGuard()()
 	if s.w != nil && s.w.fault("store.UpdateWorkload") {
 		return vErrInjected
 	}
@@ -223,6 +233,7 @@ func (s *vStore) UpdateWorkload(_ context.Context, wl *types.Workload) error {
 }
 
 func (s *vStore) RemoveWorkload(_ context.Context, wl *types.Workload) error {
+	defer vGuard()()
 	if s.w != nil && s.w.fault("store.RemoveWorkload") {
 		return vErrInjected
 	}
@@ -233,6 +244,7 @@ func (s *vStore) RemoveWorkload(_ context.Context, wl *types.Workload) error {
 // AddWorkload records the workload and, in the same transaction, takes one
 // instance off the deployment's in-progress marker (BatchCreateAndDecr).
 func (s *vStore) AddWorkload(_ context.Context, wl *types.Workload, p *types.Processing) error {
+	defer vGuard()()
 	if s.w != nil && s.w.fault("store.AddWorkload") {
 		return vErrInjected
 	}
@@ -249,33 +261,45 @@ func (s *vStore) AddWorkload(_ context.Context, wl *types.Workload, p *types.Pro
 // vMkWorld: one node "a" in pod p1 with nw recorded workloads whose amounts are
 // symbolic; usage satisfies the invariant usage = sum(workloads).
 func vMkWorld(nw, maxFaultAt int) (*Calcium, *vWorld, []int) {
-	c, st := vCluster(1, 1)
+	return vMkWorldOn(nw, maxFaultAt, 1)
+}
+
+// vMkWorldOn: the same over `nodes` nodes (a, b); with two nodes every workload
+// but the first sits on a symbolically chosen node.
+func vMkWorldOn(nw, maxFaultAt, nodes int) (*Calcium, *vWorld, []int) {
+	c, st := vCluster(nodes, 1)
 	w := &vWorld{st: st, usage: map[string]int{}, capacity: map[string]int{}, applied: map[string]int{}, running: map[string]bool{}}
 	st.w = w
 	c.rmgr = &vRmgr{w: w}
 	eng := &vEngine{w: w}
-	st.nodes["a"].Engine = eng
+	for _, n := range st.nodes {
+		n.Engine = eng
+	}
 	ids := []string{"w1", "w2", "w3"}
 	var amounts []int
-	sum := 0
 	for k := 0; k < nw; k++ {
 		a := vInt("amount_"+ids[k], 0, 1<<30)
 		amounts = append(amounts, a)
-		st.workloads[ids[k]] = &types.Workload{ID: ids[k], Name: "app_entry_" + ids[k], Nodename: "a", Podname: "p1", Resources: vRes(a), EngineParams: vRes(a), Engine: eng}
+		node := "a"
+		if nodes > 1 && k > 0 {
+			node = vNodeNames[vChoose("node_of_"+ids[k], nodes)]
+		}
+		st.workloads[ids[k]] = &types.Workload{ID: ids[k], Name: "app_entry_" + ids[k], Nodename: node, Podname: "p1", Resources: vRes(a), EngineParams: vRes(a), Engine: eng}
 		w.applied[ids[k]] = a
 		w.running[ids[k]] = true
-		sum += a
+		w.usage[node] += a
 	}
-	w.usage["a"] = sum
 	w.faultAt = vChoose("fault_at", maxFaultAt+1) // 0 = no fault
 	return c, w, amounts
 }
 
 // vLedgerSum: sum of the amounts recorded on node a.
-func vLedgerSum(w *vWorld) int {
+func vLedgerSum(w *vWorld) int { return vLedgerSumOn(w, "a") }
+
+func vLedgerSumOn(w *vWorld, node string) int {
 	sum := 0
 	for _, wl := range w.st.workloads {
-		if wl.Nodename == "a" {
+		if wl.Nodename == node {
 			sum += vAmount(wl.Resources)
 		}
 	}
